@@ -864,7 +864,8 @@ Stylesheet::addTemplate(
                         tempString,
                         *xp,
                         xp->getExpression().getCurrentPattern(),
-                        data[i].getDefaultPriority());
+                        data[i].getDefaultPriority(),
+                        i);
 
                 ++m_patternCount;
 
@@ -1216,8 +1217,15 @@ Stylesheet::findTemplate(
                 {
                     const XPath* const  xpath = matchPat->getExpression();
 
+                    // Every alternative of a match pattern is a rule of its
+                    // own, with its own default priority, so the entry is
+                    // tested with the alternative it was created for.
                     XPath::eMatchScore  score =
-                                xpath->getMatchScore(targetNode, *this, executionContext);
+                                xpath->getMatchScore(
+                                    targetNode,
+                                    *this,
+                                    executionContext,
+                                    matchPat->getAlternative());
 
                     if(XPath::eMatchScoreNone != score)
                     {
@@ -1266,6 +1274,7 @@ Stylesheet::findTemplate(
 
                 const XalanDOMString*           prevPat = 0;
                 const XalanMatchPatternData*    prevMatchPat = 0;
+                bool                            prevMatched = false;
 
                 do
                 {
@@ -1293,21 +1302,32 @@ Stylesheet::findTemplate(
                         const XalanDOMString*   patterns = matchPat->getPattern();
                         assert(patterns != 0);
 
+                        // A further alternative of the template that has just
+                        // matched cannot change the choice, and would only be
+                        // reported as a conflict of the template with itself.
                         if(!patterns->empty() &&
                            !(prevMatchPat != 0 &&
+                             prevMatched == true &&
                              prevMatchPat->getTemplate() == matchPat->getTemplate()))
                         {
                             prevPat = patterns;
                             prevMatchPat = matchPat;
+                            prevMatched = false;
                             matchPatPriority = matchScoreNoneValue;
 
                             const XPath* const  xpath = matchPat->getExpression();
 
                             XPath::eMatchScore  score =
-                                        xpath->getMatchScore(targetNode, *this, executionContext);
+                                        xpath->getMatchScore(
+                                            targetNode,
+                                            *this,
+                                            executionContext,
+                                            matchPat->getAlternative());
 
                             if(XPath::eMatchScoreNone != score)
                             {
+                                prevMatched = true;
+
                                 // the priority the pattern tables are ordered by, so that
                                 // reporting conflicts never changes the choice
                                 const double priorityOfRule = matchPat->getPriorityOrDefault();
